@@ -23,12 +23,15 @@ CONSTANTS
   FlushEntry = TRUE
   UnmapOnDrop = TRUE
   Linear = TRUE
+  AllowNested = FALSE
+  OthersCall = "never"
+  KeepPagesWritable = FALSE
   UserCalls = FALSE
   MaxUserCalls = 0
   InstallKinds = {"jump"}
   Faults = {}
   MaxLives = 1
-  Gates = {"ok"}
+  Gates = {"ok", "abandon"}
   MaxInstalls = 3
 CONSTRAINT CanonDrop
 INVARIANT Emit
